@@ -153,16 +153,18 @@ EXPORT errno_t _mbsrtowcs_s_chk(size_t *restrict retvalp,
             BND_CHK_PTR_BOUNDS(dest, destsz);
         } else {
             if (unlikely(destsz > destbos || len * sizeof(wchar_t) > destbos)) {
+                /* the object size is known: clear that much, as mbstowcs_s */
                 if (unlikely(dmax > RSIZE_MAX_WSTR || len > RSIZE_MAX_WSTR)) {
-                    invoke_safe_str_constraint_handler("mbsrtowcs_s"
-                                                       ": dmax/len exceeds max",
-                                                       (void *)dest, ESLEMAX);
+                    handle_werror(dest, destbos / sizeof(wchar_t),
+                                  "mbsrtowcs_s"
+                                  ": dmax/len exceeds max",
+                                  ESLEMAX);
                     return RCNEGATE(ESLEMAX);
                 } else {
-                    invoke_safe_str_constraint_handler(
-                        "mbsrtowcs_s"
-                        ": dmax/len exceeds destsz",
-                        (void *)dest, EOVERFLOW);
+                    handle_werror(dest, destbos / sizeof(wchar_t),
+                                  "mbsrtowcs_s"
+                                  ": dmax/len exceeds destsz",
+                                  EOVERFLOW);
                     return RCNEGATE(EOVERFLOW);
                 }
             }
